@@ -1,6 +1,7 @@
 package eng
 
 import (
+	"sort"
 	"encoding/json"
 	"errors"
 	"fmt"
@@ -34,6 +35,8 @@ type vmScenario struct {
 	Files   map[string]string `json:"files,omitempty"` // simulated disk for (source ...)
 	// the host calls script functions directly through the public Apply API between evaluations (idle interpreter)
 	HostApply bool `json:"host_apply,omitempty"`
+	// mode "repeat": after the (fault-free) forms, this failing form is evaluated Repeat times, then the battery
+	FailForm *vmForm `json:"fail_form,omitempty"`
 	// C01 uses this engine for its panic oracle only
 	PanicsOnly bool `json:"panics_only,omitempty"`
 }
@@ -142,17 +145,84 @@ func globalSnapshot(env *zygo.Zlisp) (snap string) {
 	return globalSnapshot1(env)
 }
 
+// The struct registry is process-global: a (struct Dog0 ...) in one run would be pre-bound in every interpreter
+// created afterwards. Each run of a program starts from the registry as it was when the process had created its
+// first interpreter, so that runs of one scenario (fault-free, faulty, twin) are comparable by their global scopes.
+// (What leaks between interpreters through the registry is C20's and C17's subject, not this engine's.)
+var pristineRegistry, pristineUserdef map[string]*zygo.RegisteredType
+
+func captureRegistry() {
+	if pristineRegistry != nil {
+		return
+	}
+	closeQuietly(zy.New("std"))
+	pristineRegistry = map[string]*zygo.RegisteredType{}
+	pristineUserdef = map[string]*zygo.RegisteredType{}
+	for k, v := range zygo.GoStructRegistry.Registry {
+		pristineRegistry[k] = v
+	}
+	for k, v := range zygo.GoStructRegistry.Userdef {
+		pristineUserdef[k] = v
+	}
+}
+
+func resetRegistry() {
+	captureRegistry()
+	for k := range zygo.GoStructRegistry.Registry {
+		if _, ok := pristineRegistry[k]; !ok {
+			delete(zygo.GoStructRegistry.Registry, k)
+		}
+	}
+	for k, v := range pristineRegistry {
+		zygo.GoStructRegistry.Registry[k] = v
+	}
+	for k := range zygo.GoStructRegistry.Userdef {
+		if _, ok := pristineUserdef[k]; !ok {
+			delete(zygo.GoStructRegistry.Userdef, k)
+		}
+	}
+	for k, v := range pristineUserdef {
+		zygo.GoStructRegistry.Userdef[k] = v
+	}
+}
+
+// baselineGlobals: what a fresh interpreter with the standard setup and the simulator's host functions binds
+var baselineGlobals map[string]bool
+
+func baseline() map[string]bool {
+	if baselineGlobals == nil {
+		baselineGlobals = map[string]bool{}
+		resetRegistry()
+		env := zy.New("std")
+		installHost(env, &host{snapAt: map[int]string{}, formAt: map[int]int{}, depthAt: map[int]string{}})
+		for _, n := range env.VerifGlobalNames() {
+			baselineGlobals[n] = true
+		}
+		closeQuietly(env)
+	}
+	return baselineGlobals
+}
+
+// globalSnapshot1: every name bound in the global scope beyond the baseline, with its printed value, and the
+// user-defined macros: whatever a program defined, not a list of names of ours
 func globalSnapshot1(env *zygo.Zlisp) string {
 	var sb strings.Builder
-	for _, n := range snapNames {
+	base := baseline()
+	var entries []string
+	for _, n := range env.VerifGlobalNames() {
+		if base[n] {
+			continue
+		}
 		v, ok := env.VerifGlobal(n)
 		if !ok {
 			continue
 		}
-		sb.WriteString(n)
-		sb.WriteByte('=')
-		sb.WriteString(zy.NormVal(zy.Show(v)))
-		sb.WriteByte(';')
+		// (generated names carry a serial number that legitimately depends on how much was compiled before)
+		entries = append(entries, zy.NormVal(n)+"="+zy.NormVal(zy.Show(v))+";")
+	}
+	sort.Strings(entries)
+	for _, e := range entries {
+		sb.WriteString(e)
 	}
 	have := map[string]bool{}
 	for _, m := range env.VerifMacroNames() {
@@ -258,6 +328,8 @@ var battery = []string{
 	"(m0 4)", "(m1 4)",
 	"(t0)", "(t1)", "(t2)", "(t0)", "sv0", "sv1", "(pk0.Get)", "pk0.Open",
 	"(- 10 3)",
+	// walkers of nested values (comparison, printing, encoding, typing, compiling a literal)
+	"(== [1 [2 [3 \"x\"]]] [1 [2 [3 \"x\"]]])", "(str [1 [2 (hash a: [3])]])", "(str (json (hash a: [1 [2]])))", "(eval (quote [1 [2 [3]]]))", "(< [1 2] [1 3])",
 }
 
 func newVM(kind string) (*zygo.Zlisp, *zygo.Zlisp) {
@@ -272,6 +344,7 @@ func newVM(kind string) (*zygo.Zlisp, *zygo.Zlisp) {
 }
 
 func runProgram(sc *vmScenario, texts []string, formIdx []int, failK int, failKind string, wantSnap bool, res *kernel.Result) *runOut {
+	resetRegistry()
 	env, root := newVM(sc.Env)
 	defer closeQuietly(root)
 	h := &host{failK: failK, failKind: failKind, wantSnap: wantSnap, snapAt: map[int]string{}, formAt: map[int]int{}, depthAt: map[int]string{}}
@@ -288,7 +361,13 @@ func runProgram(sc *vmScenario, texts []string, formIdx []int, failK int, failKi
 		if formIdx != nil {
 			h.curForm = formIdx[i]
 		}
-		out.startSnap = append(out.startSnap, globalSnapshot(env))
+		// (very long runs - one failing form thousands of times - are snapshotted at both ends only)
+		snapHere := len(texts) < 500 || i < 50 || i >= len(texts)-120
+		if snapHere {
+			out.startSnap = append(out.startSnap, globalSnapshot(env))
+		} else {
+			out.startSnap = append(out.startSnap, "")
+		}
 		dv, _ := depthsOf(env)
 		firedBefore := h.fired
 		res.Execs++
@@ -312,7 +391,11 @@ func runProgram(sc *vmScenario, texts []string, formIdx []int, failK int, failKi
 		} else {
 			out.restMsg = append(out.restMsg, "")
 		}
-		out.snapAfter = append(out.snapAfter, globalSnapshot(env))
+		if snapHere {
+			out.snapAfter = append(out.snapAfter, globalSnapshot(env))
+		} else {
+			out.snapAfter = append(out.snapAfter, "")
+		}
 		out.traceLen = append(out.traceLen, len(h.trace))
 		if o.Kind() != "val" {
 			// what the REPL does after an error
@@ -362,6 +445,8 @@ func execVM(body json.RawMessage) *kernel.Result {
 		execGrouping(&sc, res)
 	case "growth":
 		execGrowth(&sc, res)
+	case "repeat":
+		execRepeat(&sc, res)
 	}
 	res.Steps = kernel.Steps()
 	return res
@@ -389,6 +474,175 @@ func setupSimDisk(files map[string]string) error {
 		}
 	}
 	return os.Chdir(dir)
+}
+
+func checkGroupedFailure(sc *vmScenario, res *kernel.Result, fail func(string, string, string, ...interface{}), texts []string, i, j, k int) {
+	grouped := strings.Join(texts[j:k+1], " ")
+	mk := func(pre []string, mid string) ([]string, []int) {
+		ts := append([]string{}, pre...)
+		if mid != "" {
+			ts = append(ts, mid)
+		}
+		ts = append(ts, battery...)
+		ix := make([]int, len(ts))
+		for x := range ix {
+			ix[x] = -1
+		}
+		return ts, ix
+	}
+	tsA, ixA := mk(texts[:j], grouped)
+	A := runProgram(sc, tsA, ixA, 0, "", false, res)
+	tsC, ixC := mk(texts[:j], "") // nothing of the text ran (failure at compile time)
+	C := runProgram(sc, tsC, ixC, 0, "", false, res)
+	tsR, ixR := mk(texts[:i], "") // the forms in front of the failing one ran (failure at run time)
+	R := runProgram(sc, tsR, ixR, 0, "", false, res)
+	if A.budget || C.budget || R.budget {
+		res.Unbounded++
+		return
+	}
+	res.Probe("grouped-failure")
+	res.Sig(fmt.Sprintf("groupedfail|%d|%d|%s", i-j, k-i, failShape(texts[i])))
+	if A.panicSite != "" {
+		fail("P-panic", A.panicSite, "the text %q panicked out of EvalString: %s", grouped, A.panicMsg)
+		return
+	}
+	if A.kinds[j] == "val" {
+		fail("R1-reported", "grouped-swallowed", "the text %q contains the failing form %q and evaluated successfully to %s", grouped, texts[i], A.outs[j])
+		return
+	}
+	if A.restMsg[j] != "" {
+		fail("R2-at-rest", "grouped:"+restSite(A.restMsg[j]), "after the failed evaluation of the text %q: %s", grouped, A.restMsg[j])
+		return
+	}
+	same := func(T *runOut, off int) (bool, string) {
+		// A: texts[:j], grouped, battery ; T: off texts, battery
+		if off > 0 && A.snapAfter[j] != T.snapAfter[off-1] {
+			return false, fmt.Sprintf("globals %s vs %s", A.snapAfter[j], T.snapAfter[off-1])
+		}
+		if off == 0 && A.snapAfter[j] != T.startSnap[0] {
+			return false, fmt.Sprintf("globals %s vs %s", A.snapAfter[j], T.startSnap[0])
+		}
+		for b := range battery {
+			if A.outs[j+1+b] != T.outs[off+b] {
+				return false, fmt.Sprintf("%q gives %s vs %s", battery[b], A.outs[j+1+b], T.outs[off+b])
+			}
+		}
+		return true, ""
+	}
+	okC, whyC := same(C, j)
+	okR, whyR := same(R, i)
+	if okC || okR {
+		return
+	}
+	site := "grouped"
+	// does A differ from the run-time reading only by macros whose definition stands behind the failing form?
+	if strings.Contains(strings.Join(texts[i+1:k+1], " "), "(defmac ") && strings.Contains(whyC+whyR, "macro:") || macroOnlyDiff(A, R, j, i) {
+		site = "grouped|macro-defined-behind-the-failure"
+	}
+	fail("R4-twin", site, "the text %q fails in %q; afterwards the interpreter is neither as if nothing of the text had run (%s) nor as if only the forms in front of the failing one had (%s)", grouped, texts[i], whyC, whyR)
+}
+
+// macroOnlyDiff: the global snapshots differ only in "macro:" entries
+func macroOnlyDiff(A, R *runOut, j, i int) bool {
+	strip := func(s string) string {
+		var keep []string
+		for _, e := range strings.Split(s, ";") {
+			if !strings.HasPrefix(e, "macro:") {
+				keep = append(keep, e)
+			}
+		}
+		return strings.Join(keep, ";")
+	}
+	rs := ""
+	if i > 0 {
+		rs = R.snapAfter[i-1]
+	} else {
+		rs = R.startSnap[0]
+	}
+	return A.snapAfter[j] != rs && strip(A.snapAfter[j]) == strip(rs)
+}
+
+// ---- C05, many failures in a row: whatever a failed evaluation leaves behind - a counter, a flag, a reservation -
+// that the stacks and the globals do not show is amplified until later evaluations notice
+
+func execRepeat(sc *vmScenario, res *kernel.Result) {
+	if sc.FailForm == nil {
+		return
+	}
+	fail := func(clause, site, f string, a ...interface{}) {
+		res.Violate(sc.Prop, sc.Prop+"."+clause, site, fmt.Sprintf(f, a...))
+	}
+	texts, idx := formTexts(sc.Forms, -1)
+	n0 := len(texts)
+	var tsA []string
+	var ixA []int
+	tsA = append(tsA, texts...)
+	ixA = append(ixA, idx...)
+	for r := 0; r < sc.Repeat; r++ {
+		tsA = append(tsA, sc.FailForm.Text)
+		ixA = append(ixA, -1)
+	}
+	tsT := append([]string{}, texts...)
+	ixT := append([]int{}, idx...)
+	for _, b := range battery {
+		tsA = append(tsA, b)
+		ixA = append(ixA, -1)
+		tsT = append(tsT, b)
+		ixT = append(ixT, -1)
+	}
+	A := runProgram(sc, tsA, ixA, 0, "", false, res)
+	T := runProgram(sc, tsT, ixT, 0, "", false, res)
+	if A.budget || T.budget {
+		res.Unbounded++
+		return
+	}
+	if A.panicSite != "" {
+		fail("P-panic", A.panicSite, "panicked out of EvalString: %s (repeat scenario, failing form %q)", A.panicMsg, sc.FailForm.Text)
+		return
+	}
+	res.Fault("native-error-repeated")
+	res.Sig(fmt.Sprintf("repeat|%s|%d", failShape(sc.FailForm.Text), min(sc.Repeat/100, 20)))
+	// every repetition failed, and failed the same way
+	first := ""
+	for r := 0; r < sc.Repeat; r++ {
+		j := n0 + r
+		if A.kinds[j] == "val" {
+			fail("R1-reported", "native-swallowed", "repetition %d of the failing form %q evaluated successfully to %s", r+1, sc.FailForm.Text, A.outs[j])
+			return
+		}
+		if r == 0 {
+			first = A.outs[j]
+		} else if A.outs[j] != first {
+			fail("R4-twin", "repeated-failure", "repetition %d of the failing form %q fails with %s, the first time it failed with %s: earlier failures changed how the interpreter behaves", r+1, sc.FailForm.Text, A.outs[j], first)
+			return
+		}
+		if A.restMsg[j] != "" {
+			fail("R2-at-rest", "native:"+restSite(A.restMsg[j]), "after repetition %d of the failed evaluation of %q: %s", r+1, sc.FailForm.Text, A.restMsg[j])
+			return
+		}
+	}
+	if !sc.FailForm.Eff && A.snapAfter[n0+sc.Repeat-1] != A.startSnap[n0] {
+		fail("R3-crash-snapshot", "native", "%d failed evaluations of %q changed global definitions: before %s after %s", sc.Repeat, sc.FailForm.Text, A.startSnap[n0], A.snapAfter[n0+sc.Repeat-1])
+		return
+	}
+	if sc.FailForm.Eff {
+		return
+	}
+	for b := range battery {
+		ja, jt := n0+sc.Repeat+b, n0+b
+		if ja >= len(A.outs) || jt >= len(T.outs) {
+			break
+		}
+		if A.outs[ja] != T.outs[jt] {
+			fail("R4-twin", "battery|repeated", "after %d failed evaluations of %q the evaluation %q gives %s; an interpreter that never ran the failing form gives %s. program=%s",
+				sc.Repeat, sc.FailForm.Text, battery[b], A.outs[ja], T.outs[jt], mustJSON(texts))
+			return
+		}
+		if A.restMsg[ja] != "" && T.restMsg[jt] == "" {
+			fail("R2-at-rest", "later:"+restSite(A.restMsg[ja]), "after %d failed evaluations of %q, evaluating %q leaves the interpreter not at rest: %s", sc.Repeat, sc.FailForm.Text, battery[b], A.restMsg[ja])
+			return
+		}
+	}
 }
 
 // ---- C05: exhaustive enumeration of host-call fault points per program
@@ -479,6 +733,11 @@ func execFaults(sc *vmScenario, res *kernel.Result) {
 			fail("R2-at-rest", "native:"+restSite(B.restMsg[i]), "after the failed evaluation of %q (%s): %s", all[i], B.outs[i], B.restMsg[i])
 			return
 		}
+		if !sc.Forms[i].Fail {
+			// a text of several forms (declare and use) that failed on its own at some point: what ran before that
+			// point legitimately stays; only the rest clause applies
+			continue
+		}
 		if B.snapAfter[i] != B.startSnap[i] && !sc.Forms[i].Eff {
 			// a natively failing form of ours is effect-free by construction
 			fail("R3-crash-snapshot", "native", "the failed evaluation of %q changed global definitions: before %s after %s", all[i], B.startSnap[i], B.snapAfter[i])
@@ -496,8 +755,31 @@ func execFaults(sc *vmScenario, res *kernel.Result) {
 			}
 		}
 	}
-	if sc.Forms != nil && !anyFail(sc.Forms) {
-		// an expected-to-fail form that succeeds would be a swallowed error
+	// the failing form as one of several forms of a single text: the text fails, the forms behind the failing one
+	// must not have happened, and what stood before the text is intact. What "ran before the failure" inside the
+	// text depends on when the form fails: at compile time nothing of the text has run, at run time the forms in
+	// front of it have; either reading is accepted, anything else is not.
+	if sc.OnlyK == 0 {
+		for i := 0; i < nForms; i++ {
+			if !sc.Forms[i].Fail || sc.Forms[i].Eff || B.kinds[i] == "val" {
+				continue
+			}
+			j, k := i, i
+			if i > 0 && sc.Forms[i-1].Text != "" && !sc.Forms[i-1].Fail {
+				j = i - 1
+			}
+			for k+1 < nForms && k < i+2 && !sc.Forms[k+1].Fail {
+				k++
+			}
+			if j == i && k == i {
+				continue
+			}
+			checkGroupedFailure(sc, res, fail, texts, i, j, k)
+			if len(res.Violations) > 0 {
+				return
+			}
+			break // one per scenario
+		}
 	}
 	for i, f := range sc.Forms {
 		if f.Fail && B.kinds[i] == "val" {
@@ -838,9 +1120,43 @@ func genVMFaults(prop string) func(*kernel.RNG, string, int) interface{} {
 	return func(r *kernel.RNG, tier string, i int) interface{} {
 		sc := &vmScenario{Prop: prop, Mode: "faults", Env: r.Pick([]string{"std", "std", "std", "dup", "clone"})}
 		sc.Budget = int64(r.PickInt([]int{5000, 50000, 200000}))
-		sc.Forms, sc.Files = genProgramFiles(r, r.Range(2, 9), false, false)
+		sc.Forms, sc.Files = genProgramFiles(r, r.Range(2, 9), false, r.Chance(0.4))
 		return sc
 	}
+}
+
+func genVMRepeat(r *kernel.RNG, tier string, i int) interface{} {
+	sc := &vmScenario{Prop: "C05", Mode: "repeat", Env: r.Pick([]string{"std", "std", "dup"})}
+	sc.Budget = 200000
+	forms, files := genProgramFiles(r, r.Range(2, 7), false, true)
+	sc.Files = files
+	for k, f := range forms {
+		if f.Fail {
+			ff := f
+			sc.FailForm = &ff
+			sc.Forms = forms[:k]
+			break
+		}
+	}
+	if sc.FailForm == nil {
+		sc.Forms = forms
+		g := newProgGen(r)
+		sc.FailForm = &vmForm{Text: g.failingForm(), Fail: true}
+	}
+	levels := []int{3, 30, 300, 3000, 12000}
+	sc.Repeat = r.PickInt(levels)
+	if i%2 == 0 {
+		// systematically: every natively failing core at every amplification level, at a seeded nesting
+		k := i / 2
+		g := newProgGen(r)
+		core := failingCores[k%len(failingCores)]
+		sc.FailForm = &vmForm{Text: g.nest(core, r.Intn(3)), Fail: true}
+		sc.Repeat = levels[(k/len(failingCores))%len(levels)]
+	}
+	if tier == "thorough" && r.Chance(0.05) {
+		sc.Repeat = 40000
+	}
+	return sc
 }
 
 func genVMGrouping(r *kernel.RNG, tier string, i int) interface{} {
@@ -916,6 +1232,23 @@ func shrinkVM(body json.RawMessage) []json.RawMessage {
 		s := sc
 		s.Repeat = 2
 		emit(s)
+		if sc.Repeat > 4 {
+			s2 := sc
+			s2.Repeat = sc.Repeat / 2
+			emit(s2)
+		}
+	}
+	if sc.FailForm != nil {
+		for _, t := range shrinkText(sc.FailForm.Text, 8) {
+			if t == "" {
+				continue
+			}
+			s := sc
+			ff := *sc.FailForm
+			ff.Text = t
+			s.FailForm = &ff
+			emit(s)
+		}
 	}
 	if len(sc.EmptyAt) > 0 {
 		s := sc
@@ -977,6 +1310,7 @@ func simplifyForm(t string, max int) []string {
 }
 
 func init() {
+	kernel.RegisterWarmup(func() { captureRegistry(); baseline() })
 	cnt := func(q, t int) func(string) int {
 		return func(tier string) int {
 			if tier == "thorough" {
@@ -1005,6 +1339,7 @@ func init() {
 		},
 		Parts: []*kernel.Part{
 			{Name: "faults", Count: cnt(1200, 40000), Generate: genVMFaults("C05"), Execute: execVM, Shrink: shrinkVM},
+			{Name: "repeat", Count: cnt(400, 12000), Generate: genVMRepeat, Execute: execVM, Shrink: shrinkVM},
 		},
 	})
 	kernel.Register(&kernel.Plan{
